@@ -163,6 +163,8 @@ def _mk_kinds(family):
             args['a'][0] = v
         else:
             args[pos] = v
+        if family.startswith('msgpack') and pos != 'b':
+            args['b'] = b'abc'                 # MessagePack carries binary data as bin, not as base64 text
         doc = {'m': args}
         if family == 'json':
             body, ctype = json.dumps(doc).encode(), 'application/json'
@@ -180,6 +182,9 @@ def _mk_kinds(family):
                 if isinstance(o, int) and not isinstance(o, bool) and not (-2 ** 63 <= o < 2 ** 64):
                     return str(o)
                 return o
+            if family == 'msgpackrpc':
+                # MessagePack-RPC: [type, msgid, method, [positional arguments]]
+                doc = [0, 1, 'm', [args[k] for k, _ in ARGS]]
             body, ctype = msgpack.packb(enc(doc)), 'application/x-msgpack'
         out, seen, resp, received, app = _run(c, family, 'soft', body, ctype)
         c.check('no_exception_escapes', out.returned, detail=(repr(out), pos, repr(v)))
@@ -187,7 +192,7 @@ def _mk_kinds(family):
     return ob
 
 
-for _f in ('json', 'yaml', 'msgpack'):
+for _f in ('json', 'yaml', 'msgpack', 'msgpackrpc'):
     _mk_kinds(_f)
 
 
